@@ -169,7 +169,8 @@ mod party_sim {
     }
 
     /// C02: static per-party knowledge analysis of the real compiled graph
-    pub fn knowledge(g: &Graph, owners: &[IOStatus], outs: &[u64]) -> Result<Vec<String>> {
+    pub fn knowledge(g: &Graph, owners: &[IOStatus], outs: &[u64]) -> Result<Vec<String>> { Ok(knowledge_full(g, owners, outs)?.0) }
+    fn knowledge_full(g: &Graph, owners: &[IOStatus], outs: &[u64]) -> Result<(Vec<String>, Vec<K>)> {
         let mut v = vec![];
         let mut ks: Vec<K> = vec![];
         let mut input_id = 0;
@@ -223,7 +224,7 @@ mod party_sim {
             let h = ko.common();
             for p in outs { if !h[*p as usize] { v.push(format!("output party {} never obtains the result (held by {:?})", p, h)); } }
         }
-        Ok(v)
+        Ok((v, ks))
     }
 
     fn run_nodes(g: &Graph, inputs: &[Value], seed: [u8; 16]) -> Result<Vec<Value>> {
@@ -241,6 +242,11 @@ mod party_sim {
         Ok(vals)
     }
 
+    // inputs for the privacy experiments: public inputs are the same in every choice, only private ones change
+    fn mk_inputs_priv(case: &Case, owners: &[IOStatus], which: u64) -> Vec<Value> {
+        let a = mk_inputs(case, 1); let b = mk_inputs(case, which);
+        owners.iter().enumerate().map(|(k, o)| if matches!(o, IOStatus::Public) { a[k].clone() } else { b[k].clone() }).collect()
+    }
     fn mk_inputs(case: &Case, which: u64) -> Vec<Value> {
         case.types.iter().enumerate().map(|(k, t)| {
             let st = t.get_scalar_type();
@@ -253,11 +259,13 @@ mod party_sim {
     pub fn run(seed: u64, want: &str) -> serde_json::Value {
         let mut tried = 0u64;
         for case in cases() {
+            if let Ok(f) = std::env::var("REPLAY_CASE") { if !case.name.contains(&f) { continue; } } // developer aid
             let st = statuses();
             for o0 in &st { for o1 in &st {
                 let owners = vec![o0.clone(), o1.clone()];
                 for outs in out_lists() {
                     tried += 1;
+                    if let Ok(f) = std::env::var("REPLAY_OWNERS") { if format!("{:?} {:?}", owners, outs) != f { continue; } } // developer aid
                     if std::env::var("REPLAY_DEBUG").is_ok() { eprintln!("case {} {:?} {:?}", case.name, owners, outs); }
                     let (plain_c, mpc_c) = match compile(&case, &owners, &outs) { Ok(x) => x, Err(e) => return json!({"found": true, "routine": "party_sim", "property": "C01",
                         "input": {"graph": case.name, "owners": format!("{:?}", owners), "output_parties": outs}, "observed": format!("compile error: {}", e)}) };
@@ -306,25 +314,75 @@ mod party_sim {
                         // constant over random tapes yet changes with the other parties' inputs
                         for q in 0..3u64 {
                             if outs.contains(&q) || owners.iter().any(|o| *o == IOStatus::Party(q)) { continue; }
-                            let mut per_input: Vec<Vec<Vec<Vec<u8>>>> = vec![];
-                            let recv: Vec<usize> = g.get_nodes().iter().filter(|n| n.get_annotations().unwrap().iter().any(|a| matches!(a, NodeAnnotation::Send(_, r) if *r == q))).map(|n| n.get_id() as usize).collect();
-                            for which in [1u64, 2u64, 6u64] {
-                                let inputs = mk_inputs(&case, which);
-                                let mut runs = vec![];
-                                for tape in 0..5u64 {
-                                    let mut sd = [0u8; 16]; sd[0] = tape as u8 + 1; sd[1] = which as u8; sd[2] = (seed & 0xff) as u8;
-                                    let vals = run_nodes(&g, &inputs, sd).unwrap();
-                                    runs.push(recv.iter().map(|id| vals[*id].access_bytes(|b| Ok(b.to_vec())).unwrap_or_default()).collect::<Vec<_>>());
+                            // the view of q: every non-tuple node q can compute (knowledge analysis of the compiled graph), values it received included
+                            let (_, ks) = knowledge_full(&g, &owners, &outs).unwrap();
+                            let nodes = g.get_nodes();
+                            let recv: std::collections::BTreeSet<usize> = nodes.iter().filter(|n| n.get_annotations().unwrap().iter().any(|a| matches!(a, NodeAnnotation::Send(_, r) if *r == q))).map(|n| n.get_id() as usize).collect();
+                            let view: Vec<usize> = nodes.iter().filter(|n| { let id = n.get_id() as usize; let t = n.get_type().unwrap();
+                                (t.is_scalar() || t.is_array()) && (recv.contains(&id) || matches!(&ks[id], K::Leaf(h, l) if h[q as usize] && !*l)) }).map(|n| n.get_id() as usize).collect();
+                            let red = |x: u64, m: Option<u64>| -> u64 { match m { Some(mm) => x % mm, None => x } };
+                            // per_input[choice][tape][k] = flattened value of view node k.  12 tapes: a one-bit value is constant over the tapes of all
+                            // three choices by chance with probability 2^-33; every candidate is then re-checked on 30 further tapes (2^-90) before it is reported
+                            let sample = |first_tape: u64, n_tapes: u64| -> Vec<Vec<Vec<Vec<u64>>>> {
+                                let mut per_input = vec![];
+                                for which in [1u64, 2u64, 6u64] {
+                                    let inputs = mk_inputs_priv(&case, &owners, which);
+                                    let mut runs = vec![];
+                                    for tape in first_tape..first_tape + n_tapes {
+                                        let mut sd = [0u8; 16]; sd[0] = tape as u8 + 1; sd[1] = which as u8; sd[2] = (seed & 0xff) as u8;
+                                        let vals = run_nodes(&g, &inputs, sd).unwrap();
+                                        runs.push(view.iter().map(|id| { let t = nodes[*id].get_type().unwrap(); flat(&vals[*id], &t).unwrap_or_default() }).collect::<Vec<_>>());
+                                    }
+                                    per_input.push(runs);
                                 }
-                                per_input.push(runs);
+                                per_input
+                            };
+                            let per_input = sample(0, 12);
+                            let confirm: std::cell::RefCell<Option<Vec<Vec<Vec<Vec<u64>>>>>> = std::cell::RefCell::new(None);
+                            let moduli: Vec<Option<u64>> = view.iter().map(|id| nodes[*id].get_type().unwrap().get_scalar_type().get_modulus().and_then(|x| if x > u64::MAX as u128 { None } else { Some(x as u64) })).collect();
+                            // a derived value leaks if it is the same for all random tapes and changes with the other parties' private inputs
+                            let leaks = |f: &dyn Fn(&Vec<Vec<u64>>) -> Vec<u64>| -> bool {
+                                let per: Vec<Vec<Vec<u64>>> = per_input.iter().map(|runs| runs.iter().map(|r| f(r)).collect()).collect();
+                                let constant = per.iter().all(|runs| !runs[0].is_empty() && runs.iter().all(|r| *r == runs[0]));
+                                if !(constant && per.iter().any(|runs| runs[0] != per[0][0])) { return false; }
+                                if confirm.borrow().is_none() { *confirm.borrow_mut() = Some(sample(12, 30)); }
+                                let c = confirm.borrow();
+                                c.as_ref().unwrap().iter().enumerate().all(|(w, runs)| runs.iter().all(|r| f(r) == per[w][0]))
+                            };
+                            let report = |what: String, ids: Vec<usize>| json!({"found": true, "routine": "party_sim", "property": "C03",
+                                "input": {"graph": case.name, "owners": format!("{:?}", owners), "output_parties": outs, "observer": q, "nodes": ids},
+                                "observed": what, "expected": "whatever a party that is neither an input owner nor an output recipient can compute from its view is independent of the other parties' private inputs (masked by a value it cannot compute)",
+                                "what": "values of the nodes of the real compiled graph that the observer can compute or receives (per-party knowledge analysis), evaluated node by node for 3 choices of the private inputs x 12 random tapes (+30 to confirm a candidate)"});
+                            for k in 0..view.len() {
+                                if leaks(&|r: &Vec<Vec<u64>>| r[k].clone()) {
+                                    return report("a value in the observer's view is identical for 42 random tapes and changes with the other parties' private inputs".into(), vec![view[k]]);
+                                }
                             }
-                            for (k, id) in recv.iter().enumerate() {
-                                let constant = per_input.iter().all(|runs| runs.iter().all(|r| r[k] == runs[0][k]) && !runs[0][k].is_empty());
-                                let differs = per_input.iter().any(|runs| runs[0][k] != per_input[0][0][k]);
-                                if constant && differs {
-                                    return json!({"found": true, "routine": "party_sim", "property": "C03", "input": {"graph": case.name, "owners": format!("{:?}", owners), "output_parties": outs, "observer": q, "node": id},
-                                        "observed": "the message is identical for 5 random tapes and changes with the other parties' inputs", "expected": "a party that is neither an input owner nor an output recipient receives only masked (tape-dependent) values",
-                                        "what": "values of Send(_, observer) nodes of the real compiled graph, evaluated node by node"});
+                            // tape-dependent values only: a sum or difference of two of them must not cancel the masks
+                            let varying: Vec<usize> = (0..view.len()).filter(|k| per_input.iter().any(|runs| runs.iter().any(|r| r[*k] != runs[0][*k]))).collect();
+                            for (ai, a) in varying.iter().enumerate() { for b in varying.iter().skip(ai + 1) {
+                                let (a, b) = (*a, *b);
+                                if nodes[view[a]].get_type().unwrap() != nodes[view[b]].get_type().unwrap() { continue; }
+                                let m = moduli[a];
+                                if leaks(&|r: &Vec<Vec<u64>>| r[a].iter().zip(r[b].iter()).map(|(x, y)| red(x.wrapping_add(*y), m)).collect()) {
+                                    return report("the SUM of two values in the observer's view is identical for 42 random tapes and changes with the other parties' private inputs: the observer unmasks private data".into(), vec![view[a], view[b]]);
+                                }
+                                if m != Some(2) && leaks(&|r: &Vec<Vec<u64>>| r[a].iter().zip(r[b].iter()).map(|(x, y)| red(x.wrapping_sub(*y).wrapping_add(m.unwrap_or(0)), m)).collect()) {
+                                    return report("the DIFFERENCE of two values in the observer's view is identical for 42 random tapes and changes with the other parties' private inputs: the observer unmasks private data".into(), vec![view[a], view[b]]);
+                                }
+                            } }
+                            // all three components of a sharing
+                            let pos: std::collections::BTreeMap<usize, usize> = view.iter().enumerate().map(|(k, id)| (*id, k)).collect();
+                            for n in nodes.iter() {
+                                if !matches!(n.get_operation(), Operation::CreateTuple) { continue; }
+                                let d: Vec<usize> = n.get_node_dependencies().iter().map(|x| x.get_id() as usize).collect();
+                                if d.len() != 3 || !d.iter().all(|x| pos.contains_key(x)) { continue; }
+                                let (a, b, c) = (pos[&d[0]], pos[&d[1]], pos[&d[2]]);
+                                let t = nodes[d[0]].get_type().unwrap();
+                                if nodes[d[1]].get_type().unwrap() != t || nodes[d[2]].get_type().unwrap() != t { continue; }
+                                let m = moduli[a];
+                                if leaks(&|r: &Vec<Vec<u64>>| (0..r[a].len()).map(|i| red(r[a][i].wrapping_add(r[b][i]).wrapping_add(r[c][i]), m)).collect()) {
+                                    return report("the observer can compute all three shares of a sharing whose sum changes with the other parties' private inputs".into(), d);
                                 }
                             }
                         }
@@ -603,6 +661,47 @@ fn adder_small_widths(seed: u64) -> serde_json::Value {
     json!({"found": false, "routine": "adder_small_widths", "tried": tried})
 }
 
+// C17: Clip2K instantiated and evaluated vs. min(max(x,0),2^k) on signed w-bit inputs: all values for w <= 8, corners + random above
+fn clip_small_widths(seed: u64) -> serde_json::Value {
+    use ciphercore_base::ops::clip::Clip2K;
+    let mut rng = Rng(seed | 1);
+    let mut tried = 0u64;
+    for w in [2u64, 3, 4, 5, 8, 16, 32, 64, 128] {
+        let mask: u128 = if w == 128 { u128::MAX } else { (1u128 << w) - 1 };
+        let vals: Vec<u128> = if w <= 8 { (0..(1u128 << w)).collect() } else {
+            let mut v: Vec<u128> = vec![0, 1, 2, mask, mask - 1, 1u128 << (w - 1), (1u128 << (w - 1)) - 1, (1u128 << (w - 1)) + 1, mask / 3, mask - mask / 3];
+            for k in 0..w - 1 { v.push(1u128 << k); v.push((1u128 << k) - 1); v.push((1u128 << k) + 1); v.push(mask - (1u128 << k) + 1); }
+            while v.len() < 400 { let sh = rng.next() % w as u64; v.push(((((rng.next() as u128) << 64) | rng.next() as u128) & mask) >> sh); } v };
+        let n = vals.len() as u64;
+        let mut flat = vec![]; for x in &vals { for i in 0..w { flat.push(((x >> i) & 1) as u8); } }
+        let va = Value::from_flattened_array(&flat, BIT).unwrap();
+        let ks: Vec<u64> = if w <= 8 { (0..w - 1).collect() } else { vec![0, 1, w / 2, w - 3, w - 2] };
+        for (shape, cnt) in [(vec![n, w], n), (vec![w], 1)] {
+            for k in ks.iter().cloned() {
+                let t = array_type(shape.clone(), BIT);
+                let v = if cnt == 1 { Value::from_flattened_array(&flat[0..w as usize].to_vec().iter().map(|_| 0u8).collect::<Vec<u8>>(), BIT).unwrap() } else { va.clone() };
+                let inp: Vec<u128> = if cnt == 1 { vec![0] } else { vals.clone() };
+                let r = catch_unwind(AssertUnwindSafe(|| eval_custom(CustomOperation::new(Clip2K { k }), vec![t.clone()], vec![v.clone()])));
+                let r = match r { Ok(Ok(v)) => v, Ok(Err(e)) => return json!({"found": true, "routine": "clip_small_widths", "property": "C17", "input": {"width": w, "k": k, "shape": shape}, "observed": format!("error: {}", e)}),
+                    Err(_) => return json!({"found": true, "routine": "clip_small_widths", "property": "C17", "input": {"width": w, "k": k, "shape": shape}, "observed": "panic"}) };
+                let out = r.to_flattened_array_u64(t.clone()).unwrap();
+                for (i, x) in inp.iter().enumerate() {
+                    tried += 1;
+                    let neg = (x >> (w - 1)) & 1 == 1;
+                    let want: u128 = if neg { 0 } else if *x >= (1u128 << k) { 1u128 << k } else { *x };
+                    let mut got = 0u128; for b in 0..w as usize { got |= (out[i * w as usize + b] as u128) << b; }
+                    if want != got {
+                        return json!({"found": true, "routine": "clip_small_widths", "property": "C17", "input": {"width": w, "k": k, "x_bits_as_unsigned": x.to_string(), "shape": shape},
+                            "expected": want.to_string(), "observed": got.to_string(),
+                            "what": "Clip2K instantiated and evaluated by SimpleEvaluator vs. min(max(x,0),2^k) on the two's-complement reading of the input bits"});
+                    }
+                }
+            }
+        }
+    }
+    json!({"found": false, "routine": "clip_small_widths", "tried": tried})
+}
+
 // C15: PRF / PermutationFromPRF are pure functions of (key, counter, type): repeated requests from one evaluator, fresh evaluators and
 // evaluators with other histories agree; permutations are valid; different counters differ
 fn prf_purity(seed: u64) -> serde_json::Value {
@@ -642,6 +741,56 @@ fn prf_purity(seed: u64) -> serde_json::Value {
     }));
     match r { Ok(Ok(Some(v))) => v, Ok(Ok(None)) => json!({"found": false, "routine": "prf_purity", "tried": tried}),
         Ok(Err(e)) => json!({"found": false, "routine": "prf_purity", "error": e.to_string()}), Err(_) => json!({"found": true, "routine": "prf_purity", "property": "C15", "observed": "panic"}) }
+}
+
+// C04: the PRF / PermutationFromPRF counters of compiled contexts are pairwise distinct: after prepare_for_mpc_evaluation and after the optimiser
+// (compile_context); graphs that use the same protocol body several times (two truncations, two conversions, a comparison inside a product chain)
+fn prf_counters_compiled(_seed: u64) -> serde_json::Value {
+    use ciphercore_base::evaluators::simple_evaluator::SimpleEvaluator;
+    use ciphercore_base::graphs::util::simple_context;
+    use ciphercore_base::graphs::Operation;
+    use ciphercore_base::inline::inline_ops::{InlineConfig, InlineMode};
+    use ciphercore_base::mpc::mpc_compiler::{compile_context, IOStatus};
+    let t = array_type(vec![4], INT32);
+    let cases: Vec<(&str, Box<dyn Fn(&Graph, &[ciphercore_base::graphs::Node]) -> Result<ciphercore_base::graphs::Node>>)> = vec![
+        ("a.truncate(4) + b.truncate(4)", Box::new(|_g, i| i[0].truncate(4)?.add(i[1].truncate(4)?))),
+        ("b2a(a2b(a) AND a2b(b))", Box::new(|_g, i| i[0].a2b()?.multiply(i[1].a2b()?)?.b2a(INT32))),
+        ("a*b*a*b", Box::new(|_g, i| i[0].multiply(i[1].clone())?.multiply(i[0].clone())?.multiply(i[1].clone()))),
+        ("mixed_multiply(a, a2b(b)[bit 0]) + mixed_multiply(b, a2b(a)[bit 0])", Box::new(|_g, i| {
+            let b0 = i[1].a2b()?.get_slice(vec![ciphercore_base::graphs::SliceElement::Ellipsis, ciphercore_base::graphs::SliceElement::SingleIndex(0)])?;
+            let a0 = i[0].a2b()?.get_slice(vec![ciphercore_base::graphs::SliceElement::Ellipsis, ciphercore_base::graphs::SliceElement::SingleIndex(0)])?;
+            i[0].mixed_multiply(b0)?.add(i[1].mixed_multiply(a0)?) })),
+    ];
+    let mut tried = 0u64;
+    let dup = |g: &Graph| -> Option<(u64, usize)> {
+        let mut seen = std::collections::BTreeMap::new();
+        for n in g.get_nodes() { match n.get_operation() { Operation::PRF(iv, _) | Operation::PermutationFromPRF(iv, _) => { *seen.entry(iv).or_insert(0usize) += 1; } _ => {} } }
+        seen.into_iter().find(|(_, c)| *c > 1)
+    };
+    for (name, build) in cases.iter() {
+        for owners in [vec![IOStatus::Party(0), IOStatus::Party(1)], vec![IOStatus::Party(2), IOStatus::Public], vec![IOStatus::Shared, IOStatus::Party(1)]] {
+            tried += 1;
+            let tt = t.clone();
+            let c = match simple_context(|g| { let a = g.input(tt.clone())?; let b = g.input(tt.clone())?; build(g, &[a, b]) }) { Ok(c) => c, Err(e) => return json!({"found": false, "routine": "prf_counters_compiled", "error": e.to_string()}) };
+            let r = catch_unwind(AssertUnwindSafe(|| -> Result<Option<(&str, u64, usize, usize)>> {
+                let (_ctx, g) = compile_simple(&c, owners.clone(), vec![IOStatus::Party(0)])?;
+                if let Some((iv, n)) = dup(&g) { return Ok(Some(("prepare_for_mpc_evaluation", iv, n, g.get_nodes().len()))); }
+                let full = compile_context(c.clone(), owners.clone(), vec![IOStatus::Party(0)], InlineConfig { default_mode: InlineMode::Simple, ..Default::default() }, || SimpleEvaluator::new(None))?;
+                let g2 = full.get_context().get_main_graph()?;
+                if let Some((iv, n)) = dup(&g2) { return Ok(Some(("compile_context (after the optimiser)", iv, n, g2.get_nodes().len()))); }
+                Ok(None)
+            }));
+            match r {
+                Ok(Ok(None)) => {}
+                Ok(Ok(Some((stage, iv, n, total)))) => return json!({"found": true, "routine": "prf_counters_compiled", "property": "C04", "input": {"graph": name, "type": "i32[4]", "owners": format!("{:?}", owners), "stage": stage},
+                    "observed": format!("counter {} is carried by {} distinct PRF nodes of the compiled graph ({} nodes)", iv, n, total), "expected": "pairwise distinct PRF counters",
+                    "what": "PRF / PermutationFromPRF counters of the main graph of the context returned by the real compiler"}),
+                Ok(Err(e)) => return json!({"found": true, "routine": "prf_counters_compiled", "property": "C04", "input": {"graph": name, "owners": format!("{:?}", owners)}, "observed": format!("compile error: {}", e)}),
+                Err(_) => return json!({"found": true, "routine": "prf_counters_compiled", "property": "C04", "input": {"graph": name, "owners": format!("{:?}", owners)}, "observed": "panic"}),
+            }
+        }
+    }
+    json!({"found": false, "routine": "prf_counters_compiled", "tried": tried})
 }
 
 // C05 / C01 end to end: source graph compiled by prepare_for_mpc_evaluation and evaluated under random tapes
@@ -896,43 +1045,165 @@ fn perm_roundtrip(_seed: u64) -> serde_json::Value {
     json!({"found": false, "routine": "perm_roundtrip", "tried": tried})
 }
 
+// C18: Sort is a stable sort by key (plaintext evaluator vs. an independent reference, tables with more than 20 rows and duplicate keys included),
+// and the compiled sort returns exactly the plaintext result for key widths that are / are not multiples of the radix chunk
+fn sort_reference(seed: u64) -> serde_json::Value {
+    use ciphercore_base::graphs::util::simple_context;
+    use ciphercore_base::mpc::mpc_compiler::IOStatus;
+    let mut rng = Rng(seed | 1);
+    let mut tried = 0u64;
+    let cfgs: Vec<(u64, u64, bool)> = vec![(1, 1, true), (2, 3, true), (6, 3, true), (7, 5, true), (5, 2, true), (5, 4, true), (6, 1, true), (48, 2, false), (25, 7, false), (64, 3, false), (33, 1, false)];
+    for (n, b, compiled) in cfgs {
+        let types = vec![array_type(vec![n, b], BIT), array_type(vec![n], UINT64), array_type(vec![n, 2], INT32)];
+        let tt = types.clone();
+        let c = match simple_context(|g| {
+            let key = g.input(tt[0].clone())?; let id = g.input(tt[1].clone())?; let pair = g.input(tt[2].clone())?;
+            let table = g.create_named_tuple(vec![("key".to_owned(), key), ("id".to_owned(), id), ("pair".to_owned(), pair)])?;
+            let sorted = table.sort("key".to_owned())?;
+            g.create_tuple(vec![sorted.named_tuple_get("key".to_owned())?, sorted.named_tuple_get("id".to_owned())?, sorted.named_tuple_get("pair".to_owned())?])
+        }) { Ok(c) => c, Err(e) => return json!({"found": true, "routine": "sort_reference", "property": "C18", "input": {"rows": n, "key_bits": b}, "observed": format!("graph construction error: {}", e)}) };
+        for rep in 0..2u64 {
+            tried += 1;
+            // few distinct keys: many duplicates
+            let keys: Vec<u64> = (0..n).map(|_| { let span = if rep == 0 { std::cmp::min(1u64 << b, 4) } else { 1u64 << b }; (rng.next() % span) << (if rep == 0 { b.saturating_sub(2) } else { 0 }) & ((1u64 << b) - 1) }).collect();
+            let mut key_bits = vec![]; for &v in &keys { for bit in (0..b).rev() { key_bits.push((v >> bit) & 1); } }
+            let ids: Vec<u64> = (0..n).map(|i| 100 + i).collect();
+            let pairs: Vec<u64> = (0..n).flat_map(|i| vec![i, 1000 - i]).collect();
+            let inputs = vec![Value::from_flattened_array(&key_bits, BIT).unwrap(), Value::from_flattened_array(&ids, UINT64).unwrap(), Value::from_flattened_array(&pairs, INT32).unwrap()];
+            let mut order: Vec<usize> = (0..n as usize).collect();
+            // reference: insertion of rows one by one behind all rows with a key <= theirs (stable by construction, no library sort)
+            let mut ord2: Vec<usize> = vec![]; for i in 0..n as usize { let mut pos = ord2.len(); while pos > 0 && keys[ord2[pos - 1]] > keys[i] { pos -= 1; } ord2.insert(pos, i); } order = ord2;
+            let want_ids: Vec<u64> = order.iter().map(|&i| ids[i]).collect();
+            let want_keys: Vec<u64> = order.iter().map(|&i| keys[i]).collect();
+            let want_pairs: Vec<u64> = order.iter().flat_map(|&i| vec![pairs[2 * i], pairs[2 * i + 1]]).collect();
+            let decode = |v: Value| -> Result<(Vec<u64>, Vec<u64>, Vec<u64>)> { let cols = v.to_vector()?; let kb = cols[0].to_flattened_array_u64(types[0].clone())?;
+                let ks: Vec<u64> = (0..n as usize).map(|r| (0..b as usize).fold(0u64, |a, j| (a << 1) | kb[r * b as usize + j])).collect();
+                Ok((ks, cols[1].to_flattened_array_u64(types[1].clone())?, cols[2].to_flattened_array_u64(types[2].clone())?)) };
+            let plain = catch_unwind(AssertUnwindSafe(|| random_evaluate(c.get_main_graph().unwrap(), inputs.clone()).and_then(|v| decode(v))));
+            let got = match plain { Ok(Ok(t)) => t, Ok(Err(e)) => return json!({"found": true, "routine": "sort_reference", "property": "C18", "input": {"rows": n, "key_bits": b, "keys": keys}, "observed": format!("plaintext sort: error: {}", e)}),
+                Err(_) => return json!({"found": true, "routine": "sort_reference", "property": "C18", "input": {"rows": n, "key_bits": b, "keys": keys}, "observed": "plaintext sort: panic"}) };
+            if got != (want_keys.clone(), want_ids.clone(), want_pairs.clone()) {
+                return json!({"found": true, "routine": "sort_reference", "property": "C18", "input": {"rows": n, "key_bits": b, "keys": keys, "ids": ids},
+                    "expected": {"keys": want_keys, "ids (rows with equal keys keep their input order)": want_ids}, "observed": {"keys": got.0, "ids": got.1},
+                    "what": "Sort evaluated by SimpleEvaluator vs. a stable insertion of the rows by key (all columns compared)"});
+            }
+            if compiled && rep == 0 {
+                let r = catch_unwind(AssertUnwindSafe(|| -> Result<(Vec<u64>, Vec<u64>, Vec<u64>)> {
+                    let (_ctx, g) = compile_simple(&c, vec![IOStatus::Party(0), IOStatus::Party(1), IOStatus::Party(2)], vec![IOStatus::Party(0)])?;
+                    decode(random_evaluate(g, inputs.clone())?) }));
+                let sec = match r { Ok(Ok(t)) => t, Ok(Err(e)) => return json!({"found": true, "routine": "sort_reference", "property": "C18", "input": {"rows": n, "key_bits": b, "keys": keys, "columns_owned_by": "parties 0,1,2"}, "observed": format!("compiled sort: error: {}", e), "expected": "the plaintext result"}),
+                    Err(_) => return json!({"found": true, "routine": "sort_reference", "property": "C18", "input": {"rows": n, "key_bits": b, "keys": keys}, "observed": "compiled sort: panic"}) };
+                if sec != got {
+                    return json!({"found": true, "routine": "sort_reference", "property": "C18", "input": {"rows": n, "key_bits": b, "keys": keys, "ids": ids, "columns_owned_by": "parties 0,1,2"},
+                        "expected": {"keys": got.0, "ids": got.1}, "observed": {"keys": sec.0, "ids": sec.1}, "what": "graph compiled by prepare_for_mpc_evaluation and evaluated vs. the plaintext Sort"});
+                }
+            }
+        }
+    }
+    json!({"found": false, "routine": "sort_reference", "tried": tried})
+}
+
 // C06 / C04: optimize_context keeps the function of the graph, every input node, and never merges or drops-by-merging PRF / Random nodes
 fn optimizer_equiv(seed: u64) -> serde_json::Value {
     use ciphercore_base::evaluators::simple_evaluator::SimpleEvaluator;
+    use ciphercore_base::evaluators::Evaluator;
     use ciphercore_base::graphs::util::simple_context;
-    use ciphercore_base::graphs::Operation;
+    use ciphercore_base::graphs::{create_context, Node, NodeAnnotation, Operation};
     use ciphercore_base::optimizer::optimize::optimize_context;
-    type B = Box<dyn Fn(&Graph) -> Result<ciphercore_base::graphs::Node>>;
-    let t = array_type(vec![3], INT32); let kt = array_type(vec![128], BIT);
-    let cases: Vec<(&str, B)> = vec![
-        ("duplicates and a dangling node", Box::new(move |g| { let a = g.input(array_type(vec![3], INT32))?; let b = g.input(array_type(vec![3], INT32))?; let _unused = g.input(array_type(vec![2], INT32))?; let s1 = a.add(b.clone())?; let s2 = a.add(b.clone())?; let _d = s1.multiply(s1.clone())?; s1.multiply(s2)?.subtract(b) })),
-        ("two PRF nodes with the same key and counter feeding a difference", Box::new(move |g| { let k = g.input(array_type(vec![128], BIT))?; let a = g.input(array_type(vec![3], INT32))?; let p1 = k.prf(0, array_type(vec![3], INT32))?; let p2 = k.prf(0, array_type(vec![3], INT32))?; a.add(p1)?.subtract(p2) })),
-        ("annotated copies are not merged with plain ones", Box::new(move |g| { let a = g.input(array_type(vec![3], INT32))?; let n1 = a.nop()?; n1.add_annotation(ciphercore_base::graphs::NodeAnnotation::Send(0, 1))?; let n2 = a.nop()?; n1.add(n2) })),
-        ("constants and unused constant", Box::new(move |g| { let a = g.input(array_type(vec![3], INT32))?; let c1 = g.constant(array_type(vec![3], INT32), Value::from_flattened_array(&[1u64, 2, 3], INT32)?)?; let _c2 = g.constant(array_type(vec![3], INT32), Value::from_flattened_array(&[9u64, 9, 9], INT32)?)?; a.multiply(c1.clone())?.add(c1) })),
-        ("tuple plumbing", Box::new(move |g| { let a = g.input(array_type(vec![3], INT32))?; let b = g.input(array_type(vec![3], INT32))?; let tp = g.create_tuple(vec![a.clone(), b.clone()])?; tp.tuple_get(1)?.add(tp.tuple_get(0)?)?.add(a) })),
+    type B = Box<dyn Fn(&Graph) -> Result<Node>>;
+    let mut cases: Vec<(String, B)> = vec![
+        ("duplicates and a dangling node".into(), Box::new(move |g| { let a = g.input(array_type(vec![3], INT32))?; let b = g.input(array_type(vec![3], INT32))?; let _unused = g.input(array_type(vec![2], INT32))?; let s1 = a.add(b.clone())?; let s2 = a.add(b.clone())?; let _d = s1.multiply(s1.clone())?; s1.multiply(s2)?.subtract(b) })),
+        ("two PRF nodes with the same key and counter feeding a difference".into(), Box::new(move |g| { let k = g.input(array_type(vec![128], BIT))?; let a = g.input(array_type(vec![3], INT32))?; let p1 = k.prf(0, array_type(vec![3], INT32))?; let p2 = k.prf(0, array_type(vec![3], INT32))?; a.add(p1)?.subtract(p2) })),
+        ("annotated copies are not merged with plain ones".into(), Box::new(move |g| { let a = g.input(array_type(vec![3], INT32))?; let n1 = a.nop()?; n1.add_annotation(NodeAnnotation::Send(0, 1))?; let n2 = a.nop()?; n1.add(n2) })),
+        ("constants and unused constant".into(), Box::new(move |g| { let a = g.input(array_type(vec![3], INT32))?; let c1 = g.constant(array_type(vec![3], INT32), Value::from_flattened_array(&[1u64, 2, 3], INT32)?)?; let _c2 = g.constant(array_type(vec![3], INT32), Value::from_flattened_array(&[9u64, 9, 9], INT32)?)?; a.multiply(c1.clone())?.add(c1) })),
+        ("tuple plumbing".into(), Box::new(move |g| { let a = g.input(array_type(vec![3], INT32))?; let b = g.input(array_type(vec![3], INT32))?; let tp = g.create_tuple(vec![a.clone(), b.clone()])?; tp.tuple_get(1)?.add(tp.tuple_get(0)?)?.add(a) })),
+        ("matrix products in both orders on the same operands".into(), Box::new(move |g| { let a = g.input(array_type(vec![2, 2], INT64))?; let b = g.input(array_type(vec![2, 2], INT64))?; let v = g.input(array_type(vec![2], INT64))?;
+            g.create_tuple(vec![a.dot(b.clone())?.subtract(b.dot(a.clone())?)?, a.matmul(b.clone())?.subtract(b.matmul(a.clone())?)?, v.dot(a.clone())?, a.dot(v)?]) })),
+        ("constants with equal bytes and different types".into(), Box::new(move |g| { let x = g.input(array_type(vec![8], UINT8))?; let y = g.input(scalar_type(UINT64))?; let z = g.input(scalar_type(INT64))?;
+            let c8 = g.constant(array_type(vec![8], UINT8), Value::from_flattened_array(&[1u64, 0, 0, 0, 0, 0, 0, 0], UINT8)?)?;
+            let cu = g.constant(scalar_type(UINT64), Value::from_scalar(1, UINT64)?)?; let ci = g.constant(scalar_type(INT64), Value::from_scalar(1, INT64)?)?;
+            g.create_tuple(vec![x.add(c8)?, y.add(cu.clone())?, z.add(ci.clone())?, cu.add(cu.clone())?, ci.add(ci.clone())?]) })),
     ];
-    let _ = (&t, &kt);
+    // generated graphs: two typed pools of 2x2 matrices; binary operations are often repeated with the operands swapped; scalar constants 0..2 of both types
+    for gi in 0..40u64 {
+        let gs = seed.wrapping_mul(0x9e3779b97f4a7c15).wrapping_add(gi * 7919) | 1;
+        cases.push((format!("generated graph #{} (generator seed {})", gi, gs), Box::new(move |g| {
+            let mut rng = Rng(gs);
+            let sts = [INT64, UINT64];
+            let mut pools: Vec<Vec<Node>> = vec![];
+            for st in sts.iter() { pools.push(vec![g.input(array_type(vec![2, 2], *st))?, g.input(array_type(vec![2, 2], *st))?]); }
+            let mut last_bin: Vec<Option<(u64, Node, Node)>> = vec![None, None];
+            for _ in 0..14 {
+                let p = (rng.next() % 2) as usize; let st = sts[p];
+                let n = pools[p].len() as u64;
+                let (x, y) = (pools[p][(rng.next() % n) as usize].clone(), pools[p][(rng.next() % n) as usize].clone());
+                let bin = |k: u64, x: Node, y: Node| -> Result<Node> { match k { 0 => x.add(y), 1 => x.subtract(y), 2 => x.multiply(y), 3 => x.dot(y), _ => x.matmul(y) } };
+                let node = match rng.next() % 10 {
+                    0..=3 => { let k = rng.next() % 5; last_bin[p] = Some((k, x.clone(), y.clone())); bin(k, x, y)? }
+                    4 | 5 => match last_bin[p].clone() { Some((k, a, b)) => bin(k, b, a)?, None => x.add(y)? },      // the last binary operation with the operands swapped
+                    6 => { let c = g.constant(scalar_type(st), Value::from_scalar(rng.next() % 3, st)?)?; if rng.next() % 2 == 0 { x.add(c)? } else { c.clone().add(c)?.add(x)? } }
+                    7 => x.permute_axes(vec![1, 0])?,
+                    8 => { let t = g.create_tuple(vec![x, y])?; t.tuple_get(rng.next() % 2)? }
+                    _ => { let c = g.constant(array_type(vec![2, 2], st), Value::from_flattened_array(&[rng.next() % 2, 0, 0, rng.next() % 2], st)?)?; c.multiply(x)? }
+                };
+                pools[p].push(node);
+            }
+            let mut outs = vec![];
+            for p in 0..2 { let l = pools[p].len(); for k in l.saturating_sub(4)..l { outs.push(pools[p][k].clone()); } }
+            g.create_tuple(outs)
+        })));
+    }
+    let eval_nodes = |g: &Graph, inputs: &[Value]| -> Result<Vec<Value>> {
+        let mut ev = SimpleEvaluator::new(Some([3u8; 16]))?; ev.preprocess(&g.get_context())?;
+        let mut vals: Vec<Value> = vec![]; let mut k = 0;
+        for node in g.get_nodes() {
+            let v = match node.get_operation() { Operation::Input(_) => { k += 1; inputs[k - 1].clone() }
+                _ => { let d = node.get_node_dependencies().iter().map(|d| vals[d.get_id() as usize].clone()).collect(); ev.evaluate_node(node.clone(), d)? } };
+            vals.push(v);
+        }
+        Ok(vals)
+    };
     let mut tried = 0u64;
     for (name, build) in cases {
         tried += 1;
         let r = catch_unwind(AssertUnwindSafe(|| -> Result<Option<String>> {
             let c = simple_context(|g| build(g))?;
-            let oc = optimize_context(&c, SimpleEvaluator::new(None)?)?.get_context();
+            let mapped = optimize_context(&c, SimpleEvaluator::new(None)?)?;
+            let oc = mapped.get_context();
             let (g0, g1) = (c.get_main_graph()?, oc.get_main_graph()?);
             let ins0: Vec<Type> = g0.get_nodes().iter().filter_map(|n| if let Operation::Input(t) = n.get_operation() { Some(t) } else { None }).collect();
             let ins1: Vec<Type> = g1.get_nodes().iter().filter_map(|n| if let Operation::Input(t) = n.get_operation() { Some(t) } else { None }).collect();
-            if ins0 != ins1 { return Ok(Some(format!("input nodes changed: {} -> {}", ins0.len(), ins1.len()))); }
-            let prf0 = g0.get_nodes().iter().filter(|n| matches!(n.get_operation(), Operation::PRF(_, _))).count();
+            if ins0 != ins1 { return Ok(Some(format!("input nodes changed: {:?} -> {:?}", ins0.len(), ins1.len()))); }
+            // nodes of the source graph the output depends on
+            let mut live = vec![false; g0.get_nodes().len()]; live[g0.get_output_node()?.get_id() as usize] = true;
+            for n in g0.get_nodes().iter().rev() { if live[n.get_id() as usize] { for d in n.get_node_dependencies() { live[d.get_id() as usize] = true; } } }
+            let prf0 = g0.get_nodes().iter().filter(|n| live[n.get_id() as usize] && matches!(n.get_operation(), Operation::PRF(_, _))).count();
             let prf1 = g1.get_nodes().iter().filter(|n| matches!(n.get_operation(), Operation::PRF(_, _))).count();
-            if prf1 != prf0 { return Ok(Some(format!("PRF nodes: {} before, {} after (all of them feed the output)", prf0, prf1))); }
-            let send0 = g0.get_nodes().iter().filter(|n| !n.get_annotations().unwrap().is_empty()).count();
+            if prf1 != prf0 { return Ok(Some(format!("PRF nodes the output depends on: {} before, {} after", prf0, prf1))); }
+            let send0 = g0.get_nodes().iter().filter(|n| live[n.get_id() as usize] && !n.get_annotations().unwrap().is_empty()).count();
             let send1 = g1.get_nodes().iter().filter(|n| !n.get_annotations().unwrap().is_empty()).count();
-            if send1 != send0 { return Ok(Some(format!("annotated nodes: {} before, {} after (all of them feed the output)", send0, send1))); }
+            if send1 != send0 { return Ok(Some(format!("annotated nodes the output depends on: {} before, {} after", send0, send1))); }
+            // recorded types are the ones type inference derives
+            let fc = create_context()?; let fg = fc.create_graph()?; let mut fresh: Vec<Node> = vec![];
+            for n in g1.get_nodes() {
+                let deps: Vec<Node> = n.get_node_dependencies().iter().map(|d| fresh[d.get_id() as usize].clone()).collect();
+                let f = match fg.add_node(deps, vec![], n.get_operation()) { Ok(f) => f, Err(e) => return Ok(Some(format!("node {} ({}) of the optimised graph does not type-check on its operands: {}", n.get_id(), n.get_operation(), e))) };
+                if f.get_type()? != n.get_type()? { return Ok(Some(format!("node {} ({}) of the optimised graph records type {} but inference gives {}", n.get_id(), n.get_operation(), n.get_type()?, f.get_type()?))); }
+                fresh.push(f);
+            }
             for rep in 0..3u64 {
                 let mut rng = Rng((seed + rep) | 1);
-                let inputs: Vec<Value> = ins0.iter().map(|t| { let st = t.get_scalar_type(); let n: u64 = t.get_shape().iter().product(); let v: Vec<u64> = (0..n).map(|_| if st == BIT { rng.next() & 1 } else { rng.next() % 1000 }).collect(); Value::from_flattened_array(&v, st).unwrap() }).collect();
+                let inputs: Vec<Value> = ins0.iter().map(|t| { let st = t.get_scalar_type(); let n: u64 = if t.is_scalar() { 1 } else { t.get_shape().iter().product() }; let v: Vec<u64> = (0..n).map(|_| if st == BIT { rng.next() & 1 } else { rng.next() % 1000 }).collect();
+                    if t.is_scalar() { Value::from_scalar(v[0], st).unwrap() } else { Value::from_flattened_array(&v, st).unwrap() } }).collect();
                 let a = random_evaluate(g0.clone(), inputs.clone())?; let b = random_evaluate(g1.clone(), inputs.clone())?;
                 if a != b { return Ok(Some("the optimised graph computes a different value".to_owned())); }
+                // the old-to-new node mapping relates nodes that compute the same value
+                let (v0, v1) = (eval_nodes(&g0, &inputs)?, eval_nodes(&g1, &inputs)?);
+                for n in g0.get_nodes() {
+                    if !mapped.mappings.contains_node(&n) { continue; } // removed nodes (dangling, or tuple plumbing simplified away) have no image
+                    let m = mapped.mappings.get_node(&n);
+                    if v0[n.get_id() as usize] != v1[m.get_id() as usize] { return Ok(Some(format!("the node mapping sends node {} ({}) to node {} ({}), which computes a different value", n.get_id(), n.get_operation(), m.get_id(), m.get_operation()))); }
+                }
             }
             Ok(None)
         }));
@@ -1064,6 +1335,9 @@ fn main() {
         Some("truncate_compiled") => truncate_compiled(seed),
         Some("prf_purity") => prf_purity(seed),
         Some("adder_small_widths") => adder_small_widths(seed),
+        Some("clip_small_widths") => clip_small_widths(seed),
+        Some("sort_reference") => sort_reference(seed),
+        Some("prf_counters_compiled") => prf_counters_compiled(seed),
         Some("party_sim_c01") => party_sim::run(seed, "C01"),
         Some("party_sim_c02") => party_sim::run(seed, "C02"),
         Some("party_sim_c03") => party_sim::run(seed, "C03"),
